@@ -107,3 +107,10 @@ package bandwidthlimiter
 //@   modifies httpOut, all(Bucket.tokenCount), all(Throttler.running), all(interop.InvokeResponseMetrics.ProducedBytes), all(interop.InvokeResponseMetrics.TimeShapedNs), all(interop.InvokeResponseMetrics.StartReadingResponseMonoTimeMs), all(interop.InvokeResponseMetrics.FinishReadingResponseMonoTimeMs), all(interop.InvokeResponseMetrics.OutboundThroughputBps)
 //@   ensures [copied-at-most-source] 0 <= written && written <= readerLen(src)
 //@   ensures [complete-on-success] err == nil ==> written == readerLen(src)
+
+//@ func NewThrottler
+//@   modifies nothing
+//@   ensures [wired] bucket != nil ==> r1 == nil && r0 != nil && fresh(r0) && r0.b == bucket && r0.metrics != nil && !r0.running
+//@ func NewBandwidthLimitingWriter
+//@   modifies nothing
+//@   ensures [wired] bucket != nil ==> r1 == nil && r0 != nil && fresh(r0) && r0.w == w && r0.th != nil && r0.th.b == bucket && r0.th.metrics != nil
